@@ -529,6 +529,50 @@ Definition static_okb (o : op) : bool :=
   | _ => true
   end.
 
+(** ** Layer classes deriving from other layer classes
+    [Layer.__init__] scans [dir(self)] (all attribute names of the class and of its bases,
+    sorted) and takes [getattr(self, name)] (the definition of the nearest class in the MRO).
+    A class is declared by its own methods and its base; [chain] lists the method
+    dictionaries along the MRO (own class first). *)
+Fixpoint insert_id (x : N) (l : list N) : list N :=
+  match l with
+  | [] => [x]
+  | y :: r => if N.ltb x y then x :: y :: r else if N.eqb x y then y :: r else y :: insert_id x r
+  end.
+(** sorted list of the distinct names: [dir()] *)
+Definition sort_ids (l : list N) : list N := fold_right insert_id [] l.
+
+Fixpoint find_hd (l : list hdecl) (i : N) : option hdecl :=
+  match l with
+  | [] => None
+  | h :: r => if N.eqb (h_id h) i then Some h else find_hd r i
+  end.
+(** [getattr(self, name)]: first class along the MRO that defines the name *)
+Fixpoint visible (chain : list (list hdecl)) (i : N) : option hdecl :=
+  match chain with
+  | [] => None
+  | own :: r => match find_hd own i with Some h => Some h | None => visible r i end
+  end.
+(** the methods [Layer.__init__] iterates over, in its order *)
+Definition effective (chain : list (list hdecl)) : list hdecl :=
+  flat_map (fun i => match visible chain i with Some h => [h] | None => [] end)
+           (sort_ids (flat_map (map h_id) chain)).
+
+(** class pool: class id -> (own methods, base class id); class trees refer to it *)
+Inductive ctree := CT (t_id : N) (t_alias : N) (t_ctx : bool) (t_subs : list ctree).
+Fixpoint chain_of (fuel : nat) (p : list (N * (list hdecl * option N))) (id : N) : list (list hdecl) :=
+  match fuel with
+  | O => []
+  | S f =>
+    match aget N.eqb p id with
+    | None => []
+    | Some (own, b) => own :: match b with Some j => chain_of f p j | None => [] end
+    end
+  end.
+Fixpoint elab (p : list (N * (list hdecl * option N))) (t : ctree) : cls :=
+  let 'CT i a x subs := t in
+  Cls a x (effective (chain_of (S (length p)) p i)) (map (elab p) subs).
+
 (** ** Boolean equalities for the correspondence check *)
 Fixpoint list_eqb {A} (eqb : A -> A -> bool) (a b : list A) : bool :=
   match a, b with
@@ -590,6 +634,14 @@ Definition check_case (c : cls * list op * list event * list (N * (N * option N)
   events_agree (rev (trace (impl_run t ops))) obs &&
   Bool.eqb (hyps_hold t ops) hy &&
   (negb hy || inside_model c).
+
+(** cases with class inheritance: class pool + class tree, elaborated by [elab] *)
+Definition pcase := (list (N * (list hdecl * option N)) * ctree * list op * list event
+                     * list (N * (N * option N)) * bool)%type.
+Definition pcase_elab (c : pcase) :=
+  let '(p, t, ops, obs, l0, hy) := c in (elab p t, ops, obs, l0, hy).
+Definition check_pcase (c : pcase) : bool := check_case (pcase_elab c).
+Definition inside_model_p (c : pcase) : bool := inside_model (pcase_elab c).
 
 (** the same against the reference (cross-check of the reference itself) *)
 Definition check_case_spec (c : cls * list op * list event * list (N * (N * option N)) * bool) : bool :=
